@@ -20,14 +20,14 @@ import prog  # noqa
 import progcommon as P  # noqa
 from lib import f32  # noqa
 
-MODULES = ["InovesaModel.Props.C05", "InovesaModel.Props.TieMain", "InovesaModel.Props.TieDrift", "InovesaModel.Props.TieEF", "InovesaModel.Props.TiePhysics", "InovesaModel.Props.TieWake"]
+MODULES = ["InovesaModel.Props.C05", "InovesaModel.Props.TieMain", "InovesaModel.Props.TieRF", "InovesaModel.Props.TieDrift", "InovesaModel.Props.TieEF", "InovesaModel.Props.TiePhysics", "InovesaModel.Props.TieWake"]
 LEVEL = "proof"
 
 
-def sync_freq():
-    """f_s of the default machine as main() computes it"""
+def sync_freq(V=1e6):
+    """f_s of the default machine (at RF voltage V) as main() computes it"""
     e, eps0, me, c = 1.602e-19, 8.854187817e-12, 510998.9, 2.99792458e8
-    f0, E0, H, V = float(f32(9e6)), 1.3e9, 50.0, 1e6
+    f0, E0, H = float(f32(9e6)), 1.3e9, 50.0
     alpha0 = float(f32(4e-3))
     R = c / (2 * math.pi * f0)
     V0 = e * (E0 / me) ** 4 / (3 * eps0 * R)
@@ -71,6 +71,11 @@ def gen(rng, count, quick):
             # must be in equilibrium with the wake IT sees and that the file records for it
             i0 = cfg["I"]
             cfg["cur"] = [i0, 0.0, 0.4 * i0] if rng.random() < 0.5 else [0.4 * i0, i0]
+        if k % 6 == 3:
+            # a low RF voltage: the radiation loss per turn is a sizeable part of it (synchronous phase near 25 degrees);
+            # rotation angle, bunch length and RF kick must all be derived from the same effective voltage
+            cfg.update(volt=1.1e5, imp="wall", I=rng.choice([0.01, 0.02]), cur=None)
+            cfg.pop("cur")
         if k % 6 == 1:
             # many steps per period on a coarse grid with a mild current: the wake kick of ONE step is below 1e-3 cell
             # everywhere, only the sum over a period balances the RF focusing
@@ -81,10 +86,12 @@ def gen(rng, count, quick):
 
 def args_of(cfg):
     a = list(prog.BASE_ARGS) + ["-s", str(cfg["n"]), "-N", str(cfg["N"]), "-T", str(cfg["T"]), "-n", str(cfg["N"]),
-                                "-d", repr(cfg["td"] / sync_freq()), "--InitialDistZoom", repr(cfg["zoom"]),
+                                "-d", repr(cfg["td"] / sync_freq(cfg.get("volt", 1e6))), "--InitialDistZoom", repr(cfg["zoom"]),
                                 "--PhaseSpaceShiftX", str(cfg["shx"]), "--PhaseSpaceShiftY", str(cfg["shy"]),
                                 "--InterpolationPoints", str(cfg["it"]), "--derivation", str(cfg["dt"]), "-o", "a.h5"]
     a += ["-I"] + [repr(c) for c in cfg.get("cur", [cfg["I"]])]
+    if cfg.get("volt"):
+        a += ["-V", repr(cfg["volt"])]
     return a + IMPEDANCES[cfg["imp"]][0]
 
 
